@@ -187,7 +187,11 @@ class TreeScanningGateRemovalPass(ScanningGateRemovalPass):
         circuit_copy = circuit.copy()
         reverse_iter = not self.start_from_left
 
-        ops_left = list(circuit.operations_with_cycles(reverse=reverse_iter))
+        ops_left = [
+            (cycle, op) for cycle, op
+            in circuit.operations_with_cycles(reverse=reverse_iter)
+            if self.collection_filter(op)
+        ]
         print(
             f'Starting TreeScan with tree depth {self.tree_depth}'
             f' on circuit with {len(ops_left)} gates',
